@@ -375,6 +375,49 @@ func c09(r *core.Report) {
 		}
 	}
 
+	// ---- C09-NARROW
+	// part counts / indexes are written into 8- and 16-bit header fields: the narrowing
+	// conversion must be dominated by a range check (difference-bound prover, shared with C08)
+	r.Rule("C09-NARROW", "part counts and indexes are narrowed to the header field width only under a range guard", 4)
+	{
+		bd := core.NewBounds(p)
+		for _, site := range []struct{ rel, fn string }{{"s/fragswarm", "swarm.Tell"}, {"p/mbapp", "Swarm.send"}} {
+			root := needFn(r, site.rel, site.fn)
+			if root == nil {
+				continue
+			}
+			for _, fn := range core.WithAnons(root) {
+				for _, in := range core.AllInstrs(fn) {
+					cv, ok := in.(*ssa.Convert)
+					if !ok {
+						continue
+					}
+					tb, isB := cv.Type().Underlying().(*types.Basic)
+					sb, isS := cv.X.Type().Underlying().(*types.Basic)
+					if !isB || !isS || sb.Kind() != types.Int {
+						continue
+					}
+					var max int64
+					switch tb.Kind() {
+					case types.Uint8:
+						max = 255
+					case types.Uint16:
+						max = 65535
+					default:
+						continue
+					}
+					if _, isK := core.ConstInt(cv.X); isK {
+						continue
+					}
+					c := fmt.Sprintf("%s %s(%s)", core.FnName(fn), tb.Name(), narrowName(cv.X))
+					ok2 := bd.ProveAtMost(in, cv.X, max) // (a negative count arises only from an inner MTU below the header size: configuration error)
+					r.Check(ok2, "C09-NARROW", c, p.Pos(in.Pos()), fmt.Sprintf("value <= %d follows from dominating checks", max),
+						fmt.Sprintf("a part count/index derived from the payload size is narrowed to %s with no range guard: a payload within MTU() that needs more than %d parts is sent with a wrapped header field and reassembled wrongly or never", tb.Name(), max))
+				}
+			}
+		}
+	}
+
 	// ---- C09-RECV-LIMIT
 	r.Rule("C09-RECV-LIMIT", "a read bounded by the MTU rejects an oversize message instead of delivering its prefix", 1)
 	h := resolveHubs(r)
@@ -425,4 +468,17 @@ func c09(r *core.Report) {
 	if nLim == 0 {
 		r.Fail("C09-RECV-LIMIT: no io.LimitReader call found (anchor stale)")
 	}
+}
+
+func narrowName(v ssa.Value) string {
+	v = core.Through(v)
+	if n := v.Name(); n != "" {
+		if a := core.CellOf(v); a != nil && a.Comment != "" {
+			return a.Comment
+		}
+		if ph, ok := v.(*ssa.Phi); ok && ph.Comment != "" {
+			return ph.Comment
+		}
+	}
+	return "value"
 }
